@@ -303,7 +303,7 @@ Layout(k, c) ==
     [] c = 7 -> Reg(id, S1("fs", "x"), << El("body", NoS,                                   \* three p over two div, nested span, br in span
                    << El("div", NoS, << El("p", S1("td", "x"), << El("span", S1("fs", "d"), << Txt(t("a")), BrN, El("span", S1("fs", "x"), <<Txt(t("b"))>>) >>) >>) >>),
                       El("div", NoS, << El("p", S1("td", "x"), << BrN >>), El("p", S2("td", "x", "fs", "d"), << Sp(S1("fs", "d"), t("c")) >>) >>) >>) >>)
-    [] c = 8 -> Reg(id, NoS, << El("body", NoS, << El("div", NoS,                          \* two p, one div each? no: same div, different values
+    [] c = 8 -> Reg(id, NoS, << El("body", NoS, << El("div", NoS,                          \* two p in one div, different values of fs
                    << El("p", S1("fs", "x"), << Sp(S1("op", "x"), t("a")) >>), El("p", S1("fs", "d"), << Sp(S1("fs", "d"), t("b")) >>) >>) >>) >>)
     [] OTHER -> Reg(id, S1("bg", "d"), << El("body", NoS, << El("div", NoS,                \* c = 9: one p holding only a br and a blank span
                    << El("p", S1("bg", "d"), << BrN, Sp(S1("bg", "d"), t(" ")) >>) >>) >>) >>)
